@@ -106,7 +106,7 @@ Lemma all_chains_spec pref a cf : finder_ok cf ->
   exists cs, all_chains_ending_at pref a cf = Ret cs /\
     forall l, In l cs <-> exists b, dget b (tfb cf) = Some l /\ last l 0 = a.
 Proof.
-  intros (Ft & Fd & Fn & Fc). unfold all_chains_ending_at.
+  intros (Ft & Fd & Fn & Fc & Fk). unfold all_chains_ending_at.
   destruct (dget a (dbt cf)) as [s|] eqn:Es.
   - destruct (chains_of_spec (tfb cf) (iter_order pref s)) as (cs & Hc & Hin).
     { intros b Hb. apply iter_order_In in Hb. assert (Hi : inset (dbt cf) a b) by (exists s; auto).
@@ -129,7 +129,7 @@ Theorem reported_heaviest pref a w cf :
     (forall c', pchain (pl cf) a c' -> (chain_weight w c' <= chain_weight w (rev c))%Z) /\
     (c = [] \/ (dget (hd 0 c) (tfb cf) = Some (c ++ [a]))).
 Proof.
-  intros F Ha Hw0 Hwpos. pose proof F as (Ft & Fd & Fn & Fc).
+  intros F Ha Hw0 Hwpos. pose proof F as (Ft & Fd & Fn & Fc & Fk).
   destruct (all_chains_spec pref a cf F) as (cs & Hcs & Hin).
   exists (removelast (best_chain w cs 0%Z [])). split; [exists cs; auto|].
   (* every chain from the anchor is covered by a stored tree ending at the anchor *)
